@@ -52,6 +52,19 @@ CHECKS = {
                 'programs (a per-site belief table would not be a decision).',
         'technique': 'static analysis: MIR Assert enumeration + operand provenance classification, CFG must-pass-through',
     },
+    'C15': {
+        'text': 'Panic discipline of the decoders: in every function that handles serde_json values, the streaming tokenizer '
+                'or its tokens on the paths from Story::new / Story::load_state (about 55 functions, enumerated from the '
+                'call graph) each unwrap/expect, panic!/todo!, index/slice, len()-1 and Vec::remove is an obligation that '
+                'must be guard-dominated (is_some/is_ok/if-let on the same value, len() test for constant indices, depth '
+                'test for the depth increment); every recursion cycle among decoders must carry a depth bound or recurse '
+                'over a serde_json::Value parsed by serde_json::from_str. Holds for every document at once.',
+        'design_ref': 'DESIGN.md §4 C15',
+        'note': TRUST + ' Not decided: termination ("within bounded time"); panics reached after a successful load of a '
+                'structurally valid but semantically impossible save; callees outside the decoder set that receive '
+                'document-derived paths (pointer_at_path, content_at_path).',
+        'technique': 'static analysis: call-graph reachability + panic-site enumeration over MIR with dominator-based guard recognition, SCC recursion-bound rule',
+    },
 }
 
 NOT_APPLICABLE = {
